@@ -156,6 +156,7 @@ def unzigzag(u):
 
 
 def _read_value(buf, pos, end, t, depth):
+    """Decode one value of compact wire type t at pos -> (value, new position)."""
     if depth > 64:
         raise ThriftError("nesting deeper than 64")
     if t == CT_TRUE or t == CT_FALSE:          # element of a list/map: one byte
@@ -224,6 +225,7 @@ def _read_value(buf, pos, end, t, depth):
 
 
 def _read_struct(buf, pos, end, depth=0):
+    """Decode the fields of a struct up to its stop byte -> (TStruct, new position)."""
     fields, last = [], 0
     while True:
         if pos >= end:
@@ -260,6 +262,7 @@ def thrift_decode_struct(buf, pos=0, end=None):
 
 
 def _write_value(out, t, v):
+    """Append the encoding of one value of wire type t."""
     if t in (CT_TRUE, CT_FALSE):
         out.append(1 if v else 2)
     elif t == CT_BYTE:
@@ -295,6 +298,7 @@ def _write_value(out, t, v):
 
 
 def _write_struct(out, ts):
+    """Append the encoding of a struct (short field headers when the id delta allows it)."""
     last = 0
     for f in ts.fields:
         t = f.ttype
@@ -371,6 +375,7 @@ _KIND_CT = {"bool": (CT_TRUE, CT_FALSE), "i8": (CT_BYTE,), "i16": (CT_I16,), "i3
 
 
 def _kind_ok(kind, ttype):
+    """Does compact wire type `ttype` fit the declared kind of a field?"""
     if isinstance(kind, tuple):
         return ttype in ((CT_LIST, CT_SET) if kind[0] == "list" else (CT_STRUCT,))
     return ttype in _KIND_CT[kind]
@@ -406,6 +411,7 @@ def named(ts, sname, where="", problems=None):
 
 
 def _conv(v, kind, where, problems):
+    """Convert a decoded Thrift value to its named form (structs -> dicts, lists -> Python lists)."""
     if isinstance(kind, tuple):
         if kind[0] == "struct":
             return named(v, kind[1], where, problems)
@@ -667,6 +673,7 @@ def build_leaves(schema, problems):
     pos = [1]
 
     def walk(nchildren, path, d, r, reps):
+        """Depth-first traversal of `nchildren` children starting at the cursor."""
         for _ in range(nchildren):
             if pos[0] >= len(schema):
                 problems.append(("schema", "schema", "num_children runs past the element list"))
@@ -727,6 +734,7 @@ class Violation:
     severity: str = "error"
 
     def __str__(self):
+        """One line: [severity] clause @ where: detail."""
         return f"[{self.severity}] {self.clause} @ {self.where}: {self.detail}"
 
 
@@ -770,6 +778,7 @@ class ParsedFile:
     """Result of read_file: everything that could be parsed plus the violations met on the way."""
 
     def __init__(self, data):
+        """data: the file's bytes."""
         self.data = bytes(data)
         self.violations: List[Violation] = []
         self.fatal = False
@@ -782,6 +791,7 @@ class ParsedFile:
 
     # -- reporting
     def _v(self, clause, where, detail, severity="error"):
+        """Append a Violation."""
         self.violations.append(Violation(clause, where, detail, severity))
 
     def errors(self):
@@ -869,6 +879,7 @@ class ParsedFile:
         return list(self.violations)
 
     def _cross_checks(self):
+        """Counts, sizes, encodings lists and tiling of the data region (second half of validate())."""
         m = self.meta
         rgs = m.get("row_groups") or []
         # counts rg -> file
@@ -976,6 +987,7 @@ class ParsedFile:
 
 
 def _i32(crc):
+    """Signed i32 as read from Thrift -> unsigned 32-bit value."""
     return crc & 0xFFFFFFFF
 
 
@@ -1036,6 +1048,7 @@ def read_file(data, decode_values=True):
 
 
 def _read_chunk(pf, r, c, cc, leaf, decode_values):
+    """Locate one column chunk, walk its chain of pages, check CRCs and decode the pages."""
     where = f"rg{r}.col{c}"
     md = cc.get("meta_data")
     ch = Chunk(r, c, md, cc, leaf)
@@ -1086,6 +1099,7 @@ def _read_chunk(pf, r, c, cc, leaf, decode_values):
             pf._v(cl, w, det)
         cs, us, pt = h.get("compressed_page_size"), h.get("uncompressed_page_size"), h.get("type")
         if cs is None or us is None or pt is None:
+            pf._v("page_chain", pw, f"page header at {pos} lacks type / sizes: not a page header")
             ok = False
             break
         if cs < 0 or us < 0 or hend + cs > end:
@@ -1137,6 +1151,7 @@ def _read_chunk(pf, r, c, cc, leaf, decode_values):
 
 
 def _decode_page(pf, ch, pg, codec, where):
+    """Decompress and decode one page (dictionary, data page v1, data page v2) into pg.defs/reps/values."""
     d = pf.data
     leaf = ch.leaf
     raw = d[pg.body_offset:pg.body_offset + pg.compressed_size]
@@ -1234,11 +1249,13 @@ def _decode_page(pf, ch, pg, codec, where):
 
 
 def _note_lz4(pf, codec, where):
+    """Record that a page tagged LZ4 (codec 5) holds a bare block instead of Hadoop frames."""
     if codec == 5 and pq_codecs.lz4_was_raw[0]:
         pf._v("codec_lz4_framing", where, "codec LZ4 (deprecated, Hadoop-framed per Compression.md) but the page is a bare LZ4 block (that is LZ4_RAW)", "warn")
 
 
 def _decode_values(pf, ch, pg, enc, body, pos, end, nn, where):
+    """Decode nn non-null values of a data page in encoding `enc` from body[pos:end]."""
     leaf = ch.leaf
     if enc == 0:
         vals, p2 = plain_decode(leaf.ptype, body, pos, end, nn, leaf.type_length)
@@ -1277,6 +1294,7 @@ def _dbp_encode_ints(ints, bits, block=128, minis=4):
     mask = (1 << bits) - 1
 
     def wrap(x):
+        """Wrap to a signed integer of `bits` bits."""
         x &= mask
         return x - (1 << bits) if x >> (bits - 1) else x
 
@@ -1324,6 +1342,7 @@ def _dbp_decode_ints(buf, pos, end, bits):
     per = block // minis
 
     def wrap(x):
+        """Wrap to a signed integer of `bits` bits."""
         x &= mask
         return x - (1 << bits) if x >> (bits - 1) else x
 
@@ -1449,6 +1468,7 @@ class SchemaNode:
     converted_type: Optional[int] = None
 
     def is_leaf(self):
+        """True for a leaf (a node with a physical type)."""
         return self.ptype is not None
 
 
@@ -1529,6 +1549,7 @@ def spec_leaves(root):
     out = []
 
     def walk(node, path, d, r, reps, nodes):
+        """Collect the leaves below `node` with their levels and ancestor chain."""
         for ch in node.children:
             d2 = d + (1 if ch.rep in ("OPTIONAL", "REPEATED") else 0)
             r2 = r + (1 if ch.rep == "REPEATED" else 0)
@@ -1550,6 +1571,7 @@ def shred(leaf_nodes, records):
     defs, reps, vals = [], [], []
 
     def rec(i, container, r, d, rdepth):
+        """Descend into field i of the path inside `container`."""
         node = leaf_nodes[i]
         v = container.get(node.name)
         if node.rep == "REQUIRED":
@@ -1569,6 +1591,7 @@ def shred(leaf_nodes, records):
                     handle(i, item, r if k == 0 else rdepth + 1, d + 1, rdepth + 1)
 
     def handle(i, v, r, d, rdepth):
+        """One defined instance of field i: emit an entry at the leaf, recurse otherwise."""
         if i == len(leaf_nodes) - 1:
             defs.append(d)
             reps.append(r)
@@ -1606,6 +1629,7 @@ def _finish(ts, spec):
 
 
 def _finish_value(v, spec):
+    """Apply the file-wide Thrift options to a nested value."""
     if isinstance(v, TStruct):
         _finish(v, spec)
     elif isinstance(v, TList):
@@ -1699,6 +1723,7 @@ def write_file(spec, rng=None):
                 vpos += nn
 
                 def plan_for(pl, seq):
+                    """Resolve 'random' / 'random_nozero' into a run plan for `seq`."""
                     if pl == "random":
                         return random_plan(rng, seq, True)
                     if pl == "random_nozero":
@@ -1790,6 +1815,7 @@ def write_file(spec, rng=None):
     elems = []
 
     def flat(node, is_root):
+        """Append the SchemaElement of `node` and of its subtree (depth first)."""
         fs = []
         if node.is_leaf():
             fs.append(TField(1, CT_I32, TYPE_ID[node.ptype]))
@@ -1860,11 +1886,13 @@ def gen_schema(rng, nested=False, types=None, max_leaves=4):
     counter = [0]
 
     def leaf(reps):
+        """A random leaf with a repetition drawn from `reps`."""
         t = rng.choice(types)
         counter[0] += 1
         return SchemaNode(f"f{counter[0]}", rng.choice(reps), t, rng.choice([1, 3, 8, 16]) if t == "FIXED_LEN_BYTE_ARRAY" else 0)
 
     def group(depth):
+        """A random group with 1..2 children, nested up to depth 2."""
         counter[0] += 1
         g = SchemaNode(f"g{counter[0]}", rng.choice(["REQUIRED", "OPTIONAL", "REPEATED"]))
         for _ in range(rng.randrange(1, 3)):
@@ -1887,11 +1915,13 @@ def gen_schema(rng, nested=False, types=None, max_leaves=4):
 def gen_records(rng, root, n, small_domain=False):
     """n random records (dicts) for the schema."""
     def val(node):
+        """A random value for one instance of `node`."""
         if node.is_leaf():
             return gen_leaf_value(rng, node.ptype, node.type_length, small_domain)
         return {ch.name: field_val(ch) for ch in node.children}
 
     def field_val(node):
+        """A random field content according to the node's repetition."""
         if node.rep == "REQUIRED":
             return val(node)
         if node.rep == "OPTIONAL":
@@ -2063,6 +2093,107 @@ def _selftest_writer(rng):
     return fails
 
 
+def rewrite_footer(data, fn):
+    """Decode the footer of `data` into its generic TStruct, let fn(tstruct) change it in place, re-encode it
+    and return the new file bytes (page data untouched, footer length field updated).  Tool for building
+    near-valid files: self-test of validate(), and structure-aware mutation for other properties."""
+    n = len(data)
+    flen = struct.unpack_from("<I", data, n - 8)[0]
+    fs = n - 8 - flen
+    ts, _ = thrift_decode_struct(data, fs, n - 8)
+    fn(ts)
+    footer = thrift_encode_struct(ts)
+    return bytes(data[:fs]) + footer + struct.pack("<I", len(footer)) + MAGIC
+
+
+def _selftest_validate(rng):
+    """Every clause of validate() must fire on a file that breaks exactly that clause; returns failures."""
+    fails = []
+    I = lambda v: struct.pack("<i", v)
+    root = SchemaNode("schema", children=[SchemaNode("a", "REQUIRED", "INT32"), SchemaNode("b", "OPTIONAL", "BYTE_ARRAY")])
+    ca = ColumnSpec([0] * 5, [0] * 5, [I(i) for i in range(5)], [PageSpec(3, crc=True), PageSpec(2, crc=True)], codec="SNAPPY")
+    cb = ColumnSpec([1, 0, 1, 1, 0], [0] * 5, [b"x", b"yy", b""], [PageSpec(5, "RLE_DICTIONARY", crc=True)], codec="SNAPPY", dict_crc=True)
+    base = write_file(FileSpec(root, [RowGroupSpec(5, [ca, cb])], optional_meta=True))
+    pf = read_file(base)
+    if pf.errors():
+        return ["validate self-test: base file not clean: %s" % pf.errors()[0]]
+    ch0, ch1 = pf.chunks[0][0], pf.chunks[0][1]
+
+    def rg0(ts):
+        return ts.get(4).items[0]
+
+    def md(ts, c):
+        return rg0(ts).get(1).items[c].get(3)
+
+    def bump(struct_getter, fid, delta=1):
+        def f(ts):
+            st = struct_getter(ts)
+            st.field(fid).value += delta
+        return f
+
+    def flip(off):
+        b = bytearray(base)
+        b[off] ^= 0x40
+        return bytes(b)
+
+    def gap(ts):
+        for c in (1,):
+            m = md(ts, c)
+            for fid in (9, 11):
+                if m.field(fid) is not None:
+                    m.field(fid).value += 3
+            rg0(ts).get(1).items[c].field(2).value += 3
+
+    gapped = base[:ch0.end] + b"\0\0\0" + base[ch0.end:]
+    cases = [
+        ("magic_head", b"PARX" + base[4:]),
+        ("magic_tail", base[:-1] + b"2"),
+        ("footer_length", base[:-8] + struct.pack("<I", pf.footer_len + 1) + MAGIC),
+        ("count_file_rows", rewrite_footer(base, lambda ts: ts.field(3).__setattr__("value", 6))),
+        ("count_rg_rows", rewrite_footer(base, bump(rg0, 3))),
+        ("count_chunk_values", rewrite_footer(base, bump(lambda ts: md(ts, 0), 5))),
+        ("page_chain", rewrite_footer(base, bump(lambda ts: md(ts, 0), 7, -1))),
+        ("chunk_overlap", rewrite_footer(base, bump(lambda ts: md(ts, 0), 7, 1))),
+        ("size_chunk_uncompressed", rewrite_footer(base, bump(lambda ts: md(ts, 1), 6))),
+        ("size_rg_uncompressed", rewrite_footer(base, bump(rg0, 2))),
+        ("size_rg_compressed", rewrite_footer(base, bump(rg0, 6))),
+        ("page_chain", rewrite_footer(base, bump(lambda ts: md(ts, 0), 9))),
+        ("dictionary_offset", rewrite_footer(base, lambda ts: md(ts, 1).set(11, CT_I64, md(ts, 1).get(9)))),
+        ("page_crc", flip(ch0.pages[1].body_offset + 2)),
+        ("page_crc", flip(ch1.pages[0].body_offset)),
+        ("thrift_required_field", rewrite_footer(base, lambda ts: md(ts, 0).remove(4))),
+        ("thrift_required_field", rewrite_footer(base, lambda ts: ts.remove(1))),
+        ("thrift_field_type", rewrite_footer(base, lambda ts: ts.set(3, CT_I32, 5))),
+        ("page_decode", rewrite_footer(base, lambda ts: md(ts, 0).set(4, CT_I32, 2))),
+        ("codec_tag", rewrite_footer(base, lambda ts: md(ts, 0).set(4, CT_I32, 42))),
+        ("encodings_list", rewrite_footer(base, lambda ts: md(ts, 0).set(2, CT_LIST, TList(CT_I32, [3])))),
+        ("chunk_type", rewrite_footer(base, lambda ts: md(ts, 0).set(1, CT_I32, 4))),
+        ("chunk_path", rewrite_footer(base, lambda ts: md(ts, 0).set(3, CT_LIST, TList(CT_BINARY, [b"zz"])))),
+        ("chunk_gap", rewrite_footer(gapped, gap)),
+        ("chunk_outside_data_region", rewrite_footer(base, bump(lambda ts: md(ts, 1), 7, 4000))),
+        ("schema", rewrite_footer(base, lambda ts: ts.get(2).items[0].set(5, CT_I32, 3))),
+        ("schema", rewrite_footer(base, lambda ts: ts.get(2).items[1].remove(3))),
+        ("rg_columns", rewrite_footer(base, lambda ts: rg0(ts).get(1).items.pop())),
+        ("footer_thrift", base[:pf.footer_start] + b"\x19" * pf.footer_len + base[-8:]),
+    ]
+    # page header fields changed in place (same encoded length)
+    hdr = bytearray(base)
+    ts, hend = thrift_decode_struct(base, ch0.pages[0].offset)
+    ts.get(5).field(1).value = 4                       # num_values 3 -> 4
+    hb = thrift_encode_struct(ts)
+    if len(hb) == ch0.pages[0].header_len:
+        hdr[ch0.pages[0].offset:ch0.pages[0].offset + len(hb)] = hb
+        cases.append(("page_decode", bytes(hdr)))
+    for clause, data in cases:
+        got = {v.clause for v in read_file(data).validate() if v.severity == "error"}
+        if clause not in got:
+            fails.append(f"validate(): clause {clause} did not fire (got {sorted(got)})")
+    print(f"validate(): {len(cases)} single-fault files, {len(cases) - len(fails)} detected by the intended clause")
+    for f in fails:
+        print("SELFTEST-FAIL:", f)
+    return fails
+
+
 # ----------------------------------------------------------------------------- self-test (reader part)
 
 def _selftest():
@@ -2074,6 +2205,7 @@ def _selftest():
     fails = []
 
     def check(cond, what):
+        """Record a failed expectation."""
         if not cond:
             fails.append(what)
             print("SELFTEST-FAIL:", what)
@@ -2144,6 +2276,7 @@ def _selftest():
 
     if "write_file" in globals():
         fails.extend(_selftest_writer(rng))
+        fails.extend(_selftest_validate(rng))
     print(f"pq selftest: {'OK' if not fails else 'FAILED'} in {time.time() - t0:.1f}s")
     return 1 if fails else 0
 
